@@ -83,6 +83,21 @@ type KV[K any, T any] interface {
 	Put(k K, v T) (T, error)
 }
 
+// methods with non-ASCII names, inherited from another package and declared here
+type Uni interface {
+	alpha.Unicode
+	Ölstand() int
+}
+
+// embedding through alias declarations and the predeclared any
+type CloserAlias = io.Closer
+
+type Sink interface {
+	CloserAlias
+	any
+	Write(p []byte) (int, error)
+}
+
 type IntGetter interface {
 	alpha.Getter[int]
 	alpha.I
@@ -136,7 +151,7 @@ type Sleeper interface {
 
 func CorpusRaw(seed int64, tier string) []*Case {
 	src := &SrcPkg{Name: "rawsrc", Pkgs: []Pkg{dep("alpha", "x", "alpha")}, Raw: map[string]string{"raw.go": rawMain}}
-	ifaces := []string{"Base", "Embeds", "IntStore", "KeyStore", "ReaderAlias", "DepAlias", "Store", "Cache", "UserStore", "NamedStore", "Pair", "Results", "Literals", "Unsafe", "KV", "IntGetter"}
+	ifaces := []string{"Base", "Embeds", "IntStore", "KeyStore", "ReaderAlias", "DepAlias", "Store", "Cache", "UserStore", "NamedStore", "Pair", "Results", "Literals", "Unsafe", "KV", "IntGetter", "Uni", "Sink"}
 	var cases []*Case
 	judge := []string{"C01", "C02", "C08", "C09", "C10", "C11", "C12", "C14", "C16", "C19", "C20"}
 	for i, n := range ifaces {
@@ -158,7 +173,7 @@ func CorpusRaw(seed int64, tier string) []*Case {
 		cases = append(cases, &Case{Origin: "raw:path-suffix:Sleeper", Src: tsrc, Cfg: cfg, Judge: judge, NoPredict: true, Repeat: 2, RunFmts: true})
 	}
 	// several at once: same-named methods from different literals, generic next to non-generic
-	for _, l := range [][]string{{"IntStore", "KeyStore"}, {"KeyStore", "IntStore"}, {"Store", "UserStore", "Cache"}, {"Embeds", "Base", "Results"}, {"UserStore:Users", "NamedStore:Named", "Pair"}} {
+	for _, l := range [][]string{{"IntStore", "KeyStore"}, {"KeyStore", "IntStore"}, {"Store", "UserStore", "Cache"}, {"Embeds", "Base", "Results"}, {"Base", "Sink", "Results"}, {"UserStore:Users", "NamedStore:Named", "Pair"}} {
 		for _, cfg := range []Cfg{{Dest: "implicit"}, {Dest: "other", SkipEnsure: true}, {Dest: "other", WithResets: true, Stub: true}} {
 			cfg.Args = l
 			cases = append(cases, &Case{Origin: "raw:" + strings.Join(l, ","), Src: src, Cfg: cfg, Judge: judge, NoPredict: true, Solo: true, Repeat: 2})
